@@ -254,7 +254,7 @@ where
     FuzzyHashBucketsInfo<NUM_BUCKETS_NORMAL>: FuzzyHashBucketMapper,
 {
     const MIN: u32 = 50;
-    const MIN_CONSERVATIVE: u32 = 128;
+    const MIN_CONSERVATIVE: u32 = 256;
 }
 // Long (256 bucket) information
 impl private::Sealed for LengthProcessingInfo<NUM_BUCKETS_LONG> where
@@ -266,7 +266,7 @@ where
     FuzzyHashBucketsInfo<NUM_BUCKETS_LONG>: FuzzyHashBucketMapper,
 {
     const MIN: u32 = 50;
-    const MIN_CONSERVATIVE: u32 = 128;
+    const MIN_CONSERVATIVE: u32 = 256;
 }
 
 /// The first index of [`TOP_VALUE_BY_ENCODING`] which *exceeds*
